@@ -280,15 +280,34 @@ func TestC02(t *testing.T) {
 			})
 		}
 		// random workflows with seeded errors
-		r.Check(t, "random-workflows", hx.N(120, 4000), func(rt *rapid.T) {
+		r.Check(t, "random-workflows", hx.N(400, 12000), func(rt *rapid.T) {
 			g := &wf.G{T: rt}
 			w := g.Workflow()
 			leaves := scalarLeaves(w.Root)
-			ne := rapid.IntRange(1, 5).Draw(rt, "nerr")
+			// values: malformed / undefined things, and references to every kind of entity the
+			// workflow defines (placed anywhere, so that type construction for each context is
+			// exercised from positions where it is and is not complete)
+			vals := []string{"${{ github. }}", "${{ unknown.ctx }}", "${{ format('{0}{1}{2}') }}", "zz-invalid", "${{ matrix.zz }} ${{ steps.zz }}", "", "${{ matrix.os }}", "${{ env.ENV_1 }} ${{ vars.X }}", "${{ secrets.nosuch }}"}
+			for _, n := range w.DispatchInputs {
+				vals = append(vals, "${{ inputs."+n+" }}", "${{ github.event.inputs."+n+" }}")
+			}
+			for _, n := range w.CallInputs {
+				vals = append(vals, "${{ inputs."+n+" }}")
+			}
+			for _, n := range w.CallSecrets {
+				vals = append(vals, "${{ secrets."+n+" }}")
+			}
+			for _, n := range w.Jobs {
+				vals = append(vals, "${{ needs."+n+".result }}", "${{ jobs."+n+".outputs.x }}")
+			}
+			for _, n := range w.StepIDs {
+				vals = append(vals, "${{ steps."+n+".outcome }}")
+			}
+			ne := rapid.IntRange(1, 6).Draw(rt, "nerr")
 			for i := 0; i < ne && len(leaves) > 0; i++ {
 				lf := leaves[rapid.IntRange(0, len(leaves)-1).Draw(rt, "leaf")]
 				lf.Raw = ""
-				lf.Val = rapid.SampledFrom([]string{"${{ github. }}", "${{ unknown.ctx }}", "${{ format('{0}{1}{2}') }}", "zz-invalid", "${{ matrix.zz }} ${{ steps.zz }}", ""}).Draw(rt, "bad")
+				lf.Val = rapid.SampledFrom(vals).Draw(rt, "bad")
 			}
 			src := ye.Emit(w.Root, g.Layout())
 			run(rt, oneFile("random-workflow-with-seeded-errors", src), false)
@@ -323,6 +342,27 @@ func TestC02(t *testing.T) {
 				name := fmt.Sprintf("%sw%02d.yml", wfPath, i)
 				c.Files[name] = ye.Emit(w.Root, g.Layout())
 				c.Targets = append(c.Targets, name)
+			}
+			run(rt, c, true)
+		})
+		// several files of one run sharing a broken local action / reusable workflow ("reported once per run")
+		r.Check(t, "multi-file-shared-broken-callee", hx.N(24, 600), func(rt *rapid.T) {
+			n := rapid.IntRange(2, 5).Draw(rt, "nfiles")
+			c := &c02Case{Kind: "multi-file-shared-broken-callee", Repo: true, Files: map[string]string{}}
+			action := rapid.Bool().Draw(rt, "action")
+			for i := 0; i < n; i++ {
+				name := fmt.Sprintf("%sw%02d.yml", wfPath, i)
+				if action {
+					c.Files[name] = "on: push\njobs:\n  a:\n    runs-on: ubuntu-latest\n    steps:\n      - uses: ./act\n"
+				} else {
+					c.Files[name] = "on: push\njobs:\n  a:\n    uses: ./.github/workflows/broken.yml\n"
+				}
+				c.Targets = append(c.Targets, name)
+			}
+			if action {
+				c.Files["act/action.yml"] = rapid.SampledFrom([]string{"name: x\nruns: [1,2\n", "name: [\n"}).Draw(rt, "broken")
+			} else {
+				c.Files[wfPath+"broken.yml"] = rapid.SampledFrom([]string{"on: [\n", "on:\n  workflow_call:\n    inputs: [1,\n"}).Draw(rt, "brokenwf")
 			}
 			run(rt, c, true)
 		})
